@@ -349,7 +349,7 @@ P("C10",
   units=[
    U("c10.download", "c10", "TestDownload", "a real leeching session (generated layout, picker mode, encryption policy, .torrent or magnet) with an honest scripted seeder and/or honest web seed among 0-3 nuisance peers "
      "(never unchoke, choke cycles, choke or go silent for good, disconnect, stall, corrupt, duplicate, reject a request while unchoking, allowed-fast grants served or turned down by a choking peer, a yourip liar) and a bad web seed (corrupting / truncating / 404): the download "
-     "completes with byte-identical files; otherwise a stuck-state predicate decides (honest source connected, unchoking and idle for a further 4 s); in peer-only cases, and in mixed cases while the honest web seed "
+     "completes with byte-identical files; otherwise a stuck-state predicate decides (honest source connected, unchoking and idle for a further 4 s); in peer-only cases (a magnet link carries no web seed), and in mixed cases while the honest web seed "
      "pauses in the middle of a response, no 2.5 s window in which the honest seeder is idle while a piece is incomplete, nobody holds or received a request for it and the web seed cannot be reading it", Q(320, 8, 900), T(12000, 16), min_nontrivial_frac=0.5, shrinktime="40s"),
    U("c10.wsretry", "c10", "TestWSRetry",
      "the only source is an honest web seed whose first answer fails (503 / 404 / body cut short): after the client's one-minute retry period the download finishes "
